@@ -64,6 +64,29 @@ def build_perm(shape, cards, names, rel_codes, feat_code, ctc_trees, ctc_code, c
     return FeatureModel(feats[0], ctcs)
 
 
+def decorate(m, names):
+    """Give every feature of the model its own field objects (abstract marker, type, feature cardinality,
+    an attribute), chosen by the feature's position in `names` - so two independently built copies carry
+    equal *values* in distinct objects. The property: a model equals an independently built copy of itself."""
+    from flamapy.metamodels.fm_metamodel.models.feature_model import Cardinality, Attribute, FeatureType
+    types = [FeatureType.BOOLEAN, FeatureType.INTEGER, FeatureType.BOOLEAN, FeatureType.STRING, FeatureType.REAL]
+    todo = [m.root]
+    while todo:
+        f = todo.pop()
+        i = 0
+        while names[i] is not f.name and names[i] != f.name:
+            i += 1
+        f.is_abstract = (i % 2 == 0)
+        f.feature_type = types[i % 5]
+        f.feature_cardinality = Cardinality(1 + i % 3, [1, 3, -1][i % 3] if i % 3 else 1 + (i % 2))
+        att = Attribute('w%d' % (i % 2), None, i, None)
+        att.set_parent(f)
+        f.add_attribute(att)
+        for r in f.relations:
+            todo.extend(r.children)
+    return m
+
+
 def uniform_cards(shape):
     """Same cardinality for every relation with the same number of children (so that sibling relations
     differ in their children only)."""
@@ -89,6 +112,17 @@ def perm_equal(shape, name_code, rel_codes, feat_code, ctc_code, with_hash, unif
         return False
     if with_hash and hash(m1) != hash(m2):
         return False
+    # the same two models after each feature got its own (equal-valued, distinct) field objects
+    decorate(m1, names)
+    decorate(m2, names)
+    if not (m1 == m2) or not (m2 == m1) or (m1 != m2) or not (m2 == m2):
+        return False
+    if with_hash and hash(m1) != hash(m2):
+        return False
+    for f1 in m1.get_features():
+        f2 = m2.get_feature_by_name(f1.name)
+        if not (f1 == f2) or not (f2 == f1) or (with_hash and hash(f1) != hash(f2)):
+            return False
     return True
 
 
@@ -101,6 +135,10 @@ def perm_equal_cards(shape, cards, with_hash=False) -> bool:
     m1 = R.build(shape, cards, names=names, ctcs=[R.ctc('c%d' % i, t) for i, t in enumerate(trees)])
     rel_codes = [math.factorial(len(cs)) - 1 for _, cs in rels]
     m2 = build_perm(shape, cards, names, rel_codes, 1, trees, 5)
+    if not ((m1 == m2) and (m2 == m1) and not (m1 != m2)):
+        return False
+    decorate(m1, names)
+    decorate(m2, names)
     return (m1 == m2) and (m2 == m1) and not (m1 != m2)
 
 
